@@ -7,20 +7,22 @@
    assignment / multi-column set / restore(version id) over any number of
    masters; versions_of m st = what master.versions returns; hist_of m st =
    the ghost list of the states master m's row went through, extended by each
-   successful update.  vguard ops = every assignment/set carries well-typed
-   values, i.e. no update of the history is refused by validation (creations
-   may fail, restores may name unknown versions, unknown masters may be
-   addressed). *)
+   successful update.  Column a of the master is UNIQUE, so the database can
+   refuse a write that passed validation.  vguard ops = in the history no
+   update (assignment, set, restore) is refused by the DATABASE; updates
+   refused by validation, failing creations (also refused by the database),
+   restores of unknown versions, unknown masters may all occur. *)
 From Coq Require Import List ZArith NArith Bool.
 From Model Require Import Events Versioning.
 From Proofs Require Import VersioningBase Versioning.
 Import ListNotations.
 Open Scope Z_scope.
 
-(* The full statement -- after every step of EVERY history -- is false for the
-   unchanged code: Versioning.rowUpdate archives the row when the
-   RowUpdateSignal arrives, before main.py validates the new values, so an
-   update that is then refused leaves a version behind. *)
+(* The full statement -- after every step of EVERY history -- is still false:
+   Versioning.rowUpdate archives the row when the RowUpdateSignal arrives,
+   before main.py issues the UPDATE, so an update the database then refuses
+   (UNIQUE violation) leaves a version behind.  (Updates refused by
+   VALIDATION no longer do: 6e91999.) *)
 Definition C20_history_inv_full : Prop :=
   forall ops w m r, In w (vrun vinit ops) -> row_of m (m_tbl (w_post w)) = Some r ->
     map v_vals (versions_of m (w_post w)) ++ [r] = hist_of m (w_post w).
@@ -28,20 +30,26 @@ Definition C20_history_inv_full : Prop :=
 Theorem C20_history_inv_refuted : ~ C20_history_inv_full.
 Proof. exact (@full_history_inv_refuted). Qed.
 
-(* the refused update itself: the row is untouched, one more version exists *)
-Theorem C20_refused_update_leaves_version_refuted :
-  exists w, In w (vrun vinit ops_refused) /\ w_out w = VExn XInvalid
+(* the update refused by the database itself: the row is untouched, one more version exists *)
+Theorem C20_db_refused_update_leaves_version_refuted :
+  exists w, In w (vrun vinit ops_refused) /\ w_out w = VExn XDuplicate
     /\ m_tbl (w_post w) = m_tbl (w_pre w)
-    /\ length (versions_of 1 (w_post w)) = S (length (versions_of 1 (w_pre w))).
+    /\ length (versions_of 2 (w_post w)) = S (length (versions_of 2 (w_pre w))).
 Proof. exact (@refused_witness). Qed.
 
-(* Histories in which no update is refused: after every step, for every
-   master, the values of its versions in order followed by its current row
-   are exactly its history. *)
+(* Histories in which the database refuses no update -- ill-typed updates
+   included: after every step, for every master, the values of its versions
+   in order followed by its current row are exactly its history. *)
 Theorem C20_history_inv_partial :
   forall ops w m r, vguard ops = true -> In w (vrun vinit ops) -> row_of m (m_tbl (w_post w)) = Some r ->
     map v_vals (versions_of m (w_post w)) ++ [r] = hist_of m (w_post w).
 Proof. exact (@hist_inv). Qed.
+
+(* an operation refused by validation changes nothing: no version, no row, no
+   counter -- in every history (no guard) *)
+Theorem C20_refused_by_validation_changes_nothing :
+  forall ops w, In w (vrun vinit ops) -> w_out w = VExn XInvalid -> w_post w = w_pre w.
+Proof. exact (@hist_invalid_noop). Qed.
 
 (* Every successful update (assignment, multi-column set -- one version, not
    one per column -- or restore) of master m, in every history (no guard):
@@ -77,14 +85,16 @@ Proof. exact (@hist_no_mixing). Qed.
 Definition ex_ops : list vop :=
   [VCreate [(CA, VInt 1)]; VCreate [(CA, VInt 2); (CB, VStr [120%N])]; VAssign 1 CA (VInt 5);
    VSet 2 [(CC, VInt 3); (CB, VStr [121%N; 121%N])]; VAssign 1 CB (VStr [113%N]); VRestore 1; VRestore 1;
-   VSet 2 []; VRestore 2; VCreate []; VRestore 9; VAssign 7 CA (VInt 0)].
+   VSet 2 []; VRestore 2; VCreate []; VRestore 9; VAssign 7 CA (VInt 0); VAssign 1 CA (VStr [120%N]);
+   VSet 2 [(CB, VInt 3); (CC, VInt 1)]; VCreate [(CA, VInt 2)]].
 Definition ex_final : vstate := vfinal vinit ex_ops.
 
 Example C20_guard_nonvacuous : vguard ex_ops = true.
 Proof. vm_compute. reflexivity. Qed.
 Example C20_outcomes :
   map w_out (vrun vinit ex_ops)
-  = [VDone; VDone; VDone; VDone; VDone; VDone; VDone; VDone; VDone; VExn XTypeError; VExn XNotFound; VNoHandle].
+  = [VDone; VDone; VDone; VDone; VDone; VDone; VDone; VDone; VDone; VExn XTypeError; VExn XNotFound; VNoHandle;
+     VExn XInvalid; VExn XInvalid; VExn XDuplicate].
 Proof. vm_compute. reflexivity. Qed.
 (* master 1: created (1,-,7); a:=5; b:='q'; restore(v1); restore(v1) again *)
 Example C20_example_history_1 :
@@ -97,9 +107,14 @@ Example C20_example_history_1 :
   /\ row_of 2 (m_tbl ex_final) = Some [(CA, VInt 2); (CB, VStr [120%N]); (CC, VInt 7)].
 Proof. vm_compute. repeat split; reflexivity. Qed.
 
+Example C20_fixed_refused_by_validation :
+  map (fun w => (w_out w, length (v_tbl (w_post w)))) (vrun vinit ops_invalid) = [(VDone, 0%nat); (VExn XInvalid, 0%nat)].
+Proof. vm_compute. reflexivity. Qed.
+
 Print Assumptions C20_history_inv_refuted.
-Print Assumptions C20_refused_update_leaves_version_refuted.
+Print Assumptions C20_db_refused_update_leaves_version_refuted.
 Print Assumptions C20_history_inv_partial.
+Print Assumptions C20_refused_by_validation_changes_nothing.
 Print Assumptions C20_one_version_per_update.
 Print Assumptions C20_restore.
 Print Assumptions C20_no_mixing_partial.
